@@ -163,7 +163,7 @@ def _parse_tlc(res, marker):
         res.postcondition_failed = True
     m = re.search(r"The number of states generated: (\d+)", out)
     if m and res.generated == 0: res.generated = int(m.group(1))
-    for m in re.finditer(r"^<(\w+) line \d+, col \d+ to line \d+, col \d+ of module \w+>: (\d+):(\d+)", out, re.M):
+    for m in re.finditer(r"^<(\w+) line \d+, col \d+ to line \d+, col \d+ of module \w+>(?: \([\d ]+\))?: (\d+):(\d+)", out, re.M):
         a, taken, gen = m.group(1), int(m.group(2)), int(m.group(3))
         t0, g0 = res.coverage.get(a, (0, 0))
         res.coverage[a] = (t0 + taken, g0 + gen)
